@@ -11,7 +11,8 @@ package bfe_route
 //@   props C12
 //@   nopanic
 //@   requires t != nil && req != nil && req.HttpRequest != nil
-//@   requires forall p string :: has(t.productBasicRouteTree, p) ==> t.productBasicRouteTree[p] != nil
+//@   requires[loaded_basic_trees_are_well_formed] forall p string :: has(t.productBasicRouteTree, p) ==> wfBasicTree(t.productBasicRouteTree[p])
+//@   note every loaded basic rule tree is assumed to be as Insert builds it: host keys map to pairs of non-nil path trees, path keys to cluster names
 //@   requires forall k int :: 0 <= k && k < len(t.productAdvancedRouteTable[req.Route.Product]) ==> t.productAdvancedRouteTable[req.Route.Product][k].Cond != nil
 //@   note every loaded advanced rule is assumed to carry a built (non-nil) condition, as the rule loader produces
 //@   modifies req.Route.ClusterName, req.Route.Error
